@@ -24,6 +24,15 @@ theorem writeAt_take_end (s : List Byte) (a : Nat) (src : List Byte) (h : a ≤ 
   rw [List.take_append_of_le_length (by simp; omega)]
   rw [List.take_of_length_le (by simp; omega)]
 
+theorem writeAt_take_drop (s : List Byte) (a k : Nat) (src : List Byte) (h : a ≤ s.length) (hk : k ≤ src.length) :
+    ((writeAt s a src).take (a + k)).drop a = src.take k := by
+  unfold writeAt
+  rw [List.append_assoc, List.take_append]
+  simp only [List.length_take, Nat.min_eq_left h, Nat.add_sub_cancel_left]
+  rw [List.drop_append_of_le_length (by simp; omega)]
+  rw [List.take_of_length_le (l := List.take a s) (by simp; omega)]
+  simp [List.take_append_of_le_length hk, Nat.min_eq_left h]
+
 theorem writeAt_nil (s : List Byte) (a : Nat) : writeAt s a [] = s := by
   simp [writeAt]
 
